@@ -127,3 +127,82 @@ func VH_C07_syncinfo(n int, rule int, qcSel int, tcSel int) {
 	// the high QC stored always verifies
 	vassert(w.Auth.VerifyQuorumCert(r.States.HighQC()) == nil, "stored-high-qc-verifies")
 }
+
+// C07(b): aggregate timeout rule. The sync info carries a TC (shape tcSel as above) and an
+// aggregate QC assembled from q honest timeout messages for view av that attest the honest QC of
+// B1 (aggSel 1), the same with its view label changed afterwards (aggSel 2), or built from q-1
+// messages (aggSel 3).
+func VH_C07_aggregate(n int, tcSel int, aggSel int) {
+	r := VNewReplica(n, 1, hotstuff.ID(2), vsymbolic())
+	w := r.W
+	q := hotstuff.QuorumSize(n)
+	gen := hotstuff.GetGenesis()
+	gqc := hotstuff.NewQuorumCert(nil, 0, gen.Hash())
+	v1 := hotstuff.View(nondetU64("v1"))
+	vassume(v1 >= 1 && v1 < 1<<40)
+	B1 := hotstuff.VMakeBlock(hotstuff.VHash(0), gen.Hash(), gqc, &clientpb.Batch{}, v1, 2)
+	w.Chain.Store(B1)
+	cur := hotstuff.View(nondetU64("current-view"))
+	vassume(cur >= 1 && cur < 1<<40)
+	r.States.VSetView(cur)
+	hq0 := r.States.HighQC().View()
+	av := hotstuff.View(nondetU64("agg-view"))
+	vassume(av >= 1 && av < 1<<40)
+	qc1 := w.HonestQC(B1, q, false)
+	cnt := q
+	if aggSel == 3 {
+		cnt = q - 1
+	}
+	var tos []hotstuff.TimeoutMsg
+	for s := 1; s <= cnt; s++ {
+		tos = append(tos, vhTimeoutMsg(w, s, s-1, av, hotstuff.NewSyncInfoWith(qc1), true))
+	}
+	agg, err := w.Auth.CreateAggregateQC(av, tos)
+	vassert(err == nil, "create-aggqc")
+	aggValid := aggSel == 1
+	label := av
+	if aggSel == 2 {
+		label = hotstuff.View(nondetU64("agg-label"))
+		agg = hotstuff.NewAggregateQC(agg.QCs(), agg.Sig(), label)
+		aggValid = label == av
+	}
+	si := hotstuff.NewSyncInfo()
+	si.SetAggQC(agg)
+	tv := hotstuff.View(nondetU64("tc-view"))
+	vassume(tv >= 1 && tv < 1<<40)
+	tcValid, tcEvidence := tcSel == 0, false
+	switch tcSel {
+	case 1:
+		si.SetTC(vhTC(w, tv, tv, q, false))
+		tcValid, tcEvidence = true, tv >= cur
+	case 2:
+		si.SetTC(vhTC(w, tv, tv, q-1, false))
+	}
+	r.Sync.OnNewView(hotstuff.NewViewMsg{ID: 3, SyncInfo: si, FromNetwork: true})
+	r.Drain()
+	view1 := r.States.View()
+	vobserve("advanced", uint64(view1-cur))
+	aggEvidence := aggValid && label >= cur
+	vassert(view1 == cur || view1 == cur+1, "view-moves-by-at-most-one")
+	vassert(r.States.HighQC().View() >= hq0, "high-qc-view-never-decreases")
+	if view1 == cur+1 {
+		vcover("advanced")
+		vassert(tcValid && aggValid && (tcEvidence || aggEvidence), "view-advances-only-on-valid-certificate-for-this-or-later-view")
+		vassert(len(r.Views) == 1 && r.Views[0].View == view1, "view-change-signalled-exactly-once")
+	} else {
+		vassert(len(r.Views) == 0, "no-view-change-event-without-advance")
+	}
+	if !tcValid || !aggValid {
+		vcover("rejected")
+		vassert(view1 == cur, "invalid-certificates-do-not-advance-the-view")
+		vassert(r.States.HighQC().View() == hq0, "invalid-certificates-do-not-change-high-qc")
+	} else {
+		if tcEvidence || aggEvidence {
+			vassert(view1 == cur+1, "valid-evidence-advances-the-view")
+		}
+		if v1 > hq0 {
+			vassert(r.States.HighQC().View() == v1, "attested-high-qc-becomes-high-qc")
+		}
+	}
+	vassert(w.Auth.VerifyQuorumCert(r.States.HighQC()) == nil, "stored-high-qc-verifies")
+}
